@@ -399,6 +399,23 @@ def run(ctx):
         folder = b"\x01\x11\x00" + num(n_) + num(n_) + b"\x00\x00" * (n_ - 1)
         hdr = (b"\x01\x04\x06\x00\x01\x09\x00\x00" + b"\x07\x0b\x01\x00" + folder + b"\x0c" + b"\x00" * n_ + b"\x00" + b"\x00" + b"\x00")
         add("synthetic:bindpairs-%d" % n_, seal(b"", hdr), None, seq=["getnames"])
+    # an encoded header that DECLARES (and really decodes to) a valid header followed by a gigabyte of zeros: 150 KB of
+    # archive; whatever the parser needs of it, the whole of it need not be in memory twice
+    import lzma as lz
+    rawh = b"\x01\x05\x01\x11\x05\x00\x61\x00\x00\x00\x0e\x01\x80\x00\x00"
+    f2 = [{"id": lz.FILTER_LZMA2, "dict_size": 1 << 20}]
+    comp = lz.LZMACompressor(format=lz.FORMAT_RAW, filters=f2)
+    packedh = comp.compress(rawh) + b"".join(comp.compress(bytes(1 << 20)) for _ in range(1024)) + comp.flush()
+    pr = lz._encode_filter_properties(f2[0])
+    recb = (b"\x17\x06\x00\x01\x09" + num(len(packedh)) + b"\x00\x07\x0b\x01\x00\x01\x21\x21" + bytes([len(pr)]) + pr +
+            b"\x0c" + num(len(rawh) + (1024 << 20)) + b"\x00\x00")
+    add("synthetic:encoded-header-1GiB-of-padding", seal(packedh, recb), None, seq=["getnames"])
+    # ... and one just inside what is accepted
+    comp = lz.LZMACompressor(format=lz.FORMAT_RAW, filters=f2)
+    packedh = comp.compress(rawh) + b"".join(comp.compress(bytes(1 << 20)) for _ in range(250)) + comp.flush()
+    recb = (b"\x17\x06\x00\x01\x09" + num(len(packedh)) + b"\x00\x07\x0b\x01\x00\x01\x21\x21" + bytes([len(pr)]) + pr +
+            b"\x0c" + num(len(rawh) + (250 << 20)) + b"\x00\x00")
+    add("synthetic:encoded-header-250MiB-of-padding", seal(packedh, recb), None, seq=["getnames"])
     # degenerate inputs
     for blob in (b"", b"7z", b"7z\xbc\xaf\x27\x1c", b"7z\xbc\xaf\x27\x1c\x00\x04" + bytes(24), seal(b"", b""), seal(b"", b"\x01"), seal(b"", b"\x17"),
                  seal(b"", b"\x01\x00"), seal(b"", b"\x01\x05"), seal(b"", b"\x01\x04\x06")):
